@@ -80,6 +80,17 @@ Proof.
   - apply rk_eqb_eq in E. subst k'. destruct (fst rk =? db) eqn:E2; cbn [reg_get]; rewrite rk_eqb_refl; reflexivity.
   - destruct (fst k' =? db); cbn [reg_get]; rewrite E; exact IH.
 Qed.
+Lemma in_unregister_all r c rk q :
+  In (rk, q) (unregister_all r c) -> exists q0, In (rk, q0) r /\ q = filter (not_conn c) q0.
+Proof.
+  unfold unregister_all. intros H. apply in_map_iff in H. destruct H as [[rk0 q0] [H1 H2]]. cbn [fst snd] in H1.
+  injection H1 as <- <-. exists q0. split; [exact H2|reflexivity].
+Qed.
+Lemma reg_get_unregister_all r c rk : reg_get (unregister_all r c) rk = filter (not_conn c) (reg_get r rk).
+Proof.
+  induction r as [|[k' q'] t IH]; cbn [unregister_all map reg_get]; [reflexivity|].
+  fold (unregister_all t c). cbn [fst snd]. destruct (rk_eqb rk k'); [reflexivity|exact IH].
+Qed.
 Lemma in_expire now r rk q :
   In (rk, q) (snd (expire_reg now r)) -> exists q0, In (rk, q0) r /\ q = filter (live_w now) q0.
 Proof.
@@ -824,6 +835,20 @@ Proof.
   rewrite zlookup_zremove_other by exact E. auto.
 Qed.
 
+(** cleanup of a connection that is not Blocked: it has no registration, nothing changes for the others *)
+Lemma agree_unregister_all b c : agree b -> zlookup c (b_blk b) = None -> agree (with_reg b (unregister_all (b_reg b) c)).
+Proof.
+  intros (A1 & A2 & A3 & A4) Hn.
+  unfold agree, waiters_agree, wakes_agree, wakes_unique, blocked_registered in *. cbn [with_reg b_reg b_wake b_blk].
+  repeat split.
+  - intros rk q w Hin Hw. apply in_unregister_all in Hin. destruct Hin as [q0 [H1 ->]]. apply in_filter_sub in Hw. eapply A1; eauto.
+  - intros u Hu. destruct (A2 u Hu) as (st & T1 & T2 & T3 & T4 & T5). exists st. repeat split; try assumption.
+    intros rk q Hin. apply in_unregister_all in Hin. destruct Hin as [q0 [H1 ->]]. apply cnt_zero. intros w Hw. apply in_filter_sub in Hw.
+    pose proof (T5 _ _ H1) as Hz. rewrite cnt_zero in Hz. apply Hz. exact Hw.
+  - exact A3.
+  - intros c2 st Hc2 Hw k Hk. rewrite reg_get_unregister_all, cnt_filter_other by congruence. eapply A4; eauto.
+Qed.
+
 Theorem inv_step st e : inv st -> ok st e = true -> inv (step st e).
 Proof.
   destruct st as [s b]. intros HI Hok. unfold inv in *. cbn [fst snd] in HI. cbn [step].
@@ -852,7 +877,9 @@ Proof.
       * rewrite zlookup_zset_other by exact E. apply Q.
     + rewrite zlookup_zset_other by lia. exact H0.
   - (* a client goes away *)
-    right. cbn [fst snd del_conn s_conns]. split; [destruct (is_blocked b c); exact HA|]. split.
+    right. cbn [fst snd del_conn s_conns]. split.
+    { destruct (is_blocked b c) eqn:Eb; [exact HA|]. apply agree_unregister_all; [exact HA|]. apply is_blocked_false. exact Eb. }
+    split.
     + intros c' cn' H. apply zlookup_zremove_some in H. eapply Q; exact H.
     + destruct (Z.eq_dec 0 c) as [E|E]; [subst; apply zlookup_zremove_same|rewrite zlookup_zremove_other by exact E; exact H0].
 Qed.
@@ -1101,7 +1128,7 @@ Qed.
 (** the other events write nothing and block or unblock nobody *)
 Theorem connect_disconnect_silent s b e : b_crashed b = false ->
   (match e with EConnect _ | EDisconnect _ => True | _ => False end) ->
-  b_out (snd (step (s, b) e)) = b_out b /\ b_blk (snd (step (s, b) e)) = b_blk b /\ b_reg (snd (step (s, b) e)) = b_reg b.
+  b_out (snd (step (s, b) e)) = b_out b /\ b_blk (snd (step (s, b) e)) = b_blk b /\ b_wake (snd (step (s, b) e)) = b_wake b.
 Proof.
   intros Hc He. cbn [step]. rewrite Hc. destruct e; try contradiction; cbn [snd].
   - repeat split.
